@@ -25,7 +25,7 @@ VERDICT = "c04_verdict"
 EXPLAIN = "c04_explain"
 CASES_PER_FILE = 60
 CASE_TIMEOUT = 60
-TIERS = {"quick": {"n": 450}, "thorough": {"n": 9000}}
+TIERS = {"quick": {"n": 450, "search_n": 300}, "thorough": {"n": 9000, "search_n": 2000}}
 RULE = ("one case = one (configuration, initial directory, body, fault schedule) of atomic_save/AtomicSaver, run once "
         "to completion and once more per crash point k (child killed with os._exit immediately before the k-th "
         "state-changing primitive: unlink/open/fdopen/chmod/write/flush/fsync/close/rename/link), the real directory "
